@@ -4,6 +4,7 @@ import Req.Pool.Tls
 import Req.Pool.TlsFamily
 import Req.Pool.TlsPaths
 import Req.Pool.ProxyDispatch
+import Req.Pool.AltSvcState
 /-! Driver lanes of C12.
 
 * `c12route <force> <h3> <allowHTTP> <dialTLS> <handshake> <protos> <scheme> <reqH1> <alpn>
@@ -297,6 +298,52 @@ def laneAlpn : List String → String
     | _, _, _, _, _, _ => "bad-op"
   | _ => "bad-op"
 
+section altsm
+open Req.Pool.AltSvc
+
+def pOrigin (s : String) : Option Origin :=
+  match s.splitOn "." with
+  | [h, p] => do pure ⟨.https, ← h.toNat?, ← p.toNat?⟩
+  | _ => none
+
+def pMas (s : String) : Option (List (Option Nat)) :=
+  if s == "-" then some [] else (s.splitOn "/").mapM fun x => if x == "n" then some none else x.toNat?.map some
+
+def pAltEvent (s : String) : Option Event :=
+  match s.splitOn ":" with
+  | ["h", o, now, mas] => do pure (.header (← pOrigin o) (← now.toNat?) (← pMas mas))
+  | ["d", o, rs] => do pure (.dialed (← pOrigin o) (← rs.toList.mapM fun c => if c == '1' then some true else if c == '0' then some false else none))
+  | ["r", o, now, ok] => do pure (.request (← pOrigin o) (← now.toNat?) (← pBool ok))
+  | _ => none
+
+def sPending (s : State) (o : Origin) : String :=
+  match s.pending o with
+  | none => "-"
+  | some p => s!"{p.idx}{if p.ready then "r" else "w"}"
+
+/-- `c12altsm <events>` → per event the disposition of a request (`A1`/`A0` = through the Alt-Svc
+shortcut, response / error; `N` = normal dispatch) and the pending entry of the event's origin
+afterwards (`-` | `<idx>r` ready | `<idx>w` waiting), from the empty state
+(`Req.Pool.AltSvc.step`). -/
+def laneAltSm : List String → String
+  | [evs] =>
+    match (evs.splitOn ",").mapM pAltEvent with
+    | none => "bad-op"
+    | some es =>
+      let (_, out) := es.foldl (fun (acc : State × List String) e =>
+        let (s', served) := step acc.1 e
+        let o := match e with | .header o _ _ => o | .dialed o _ => o | .request o _ _ => o
+        let tag := match e, served with
+          | .header .., _ => "h"
+          | .dialed .., _ => "d"
+          | .request .., some (.alt true) => "rA1"
+          | .request .., some (.alt false) => "rA0"
+          | .request .., _ => "rN"
+        (s', acc.2 ++ [tag ++ sPending s' o])) (State.empty, [])
+      ",".intercalate out
+  | _ => "bad-op"
+end altsm
+
 def pSetting : String → Option Setting
   | "f1" => some .forceH1
   | "f2" => some .forceH2
@@ -338,7 +385,8 @@ def lanes : List (String × (List String → String)) := [
   ("c12pathu", lanePathU),
   ("c12proxy", laneProxy),
   ("c12offer", laneOffer),
-  ("c12alpn", laneAlpn)
+  ("c12alpn", laneAlpn),
+  ("c12altsm", laneAltSm)
 ]
 
 end Req.Driver.L.C12
